@@ -114,6 +114,7 @@ class Analysis:
         self.node_hooks = []     # f(an, node, before, after) -> State | [State]
         self.edge_hooks = []     # f(an, node, label, st) -> State
         self.refine_hooks = []   # f(an, test, truth, st, frame) -> NotImplemented | State | None
+        self.expr_hooks = []     # f(an, expr, st, frame) -> NotImplemented | abstract value
 
     # ---- expression evaluation ------------------------------------------
     def _trivial_getter(self, frame, attr):
@@ -143,6 +144,10 @@ class Analysis:
         return e
 
     def ev(self, e, st, frame):
+        for h in self.expr_hooks:
+            r = h(self, e, st, frame)
+            if r is not NotImplemented:
+                return r
         if isinstance(e, ast.Constant):
             if e.value is None:
                 return NONE
